@@ -135,7 +135,7 @@ func runFixtures(vdir string) (map[string]string, error) {
 		case strings.HasPrefix(rest, "Pool"):
 			engine = "pool alias"
 			got = len(poolAliasViolations([]*ssa.Function{f})) > 0
-		case strings.HasPrefix(rest, "Bounds"), strings.HasPrefix(rest, "Alloc"):
+		case strings.HasPrefix(rest, "Bounds"), strings.HasPrefix(rest, "Alloc"), strings.HasPrefix(rest, "VarBound"):
 			engine = "bounds / allocation"
 			for _, bc := range boundCandidates(f) {
 				if !bc.ok {
